@@ -314,6 +314,8 @@ m("C12-r11b", "C12", "libwallet/src/api_impl/owner.rs", "\tif slate.state == Sla
 
 m("C12-r10ll", "C12", "libwallet/src/api_impl/owner.rs", "\t\tif c.late_lock_args.is_some() {\n\t\t\treturn Err(Error::GenericError(format!(\n\t\t\t\t\"A pending transaction with id {} already exists\",", "\t\tif c.late_lock_args.is_some() && c.amount == 0 {\n\t\t\treturn Err(Error::GenericError(format!(\n\t\t\t\t\"A pending transaction with id {} already exists\",", "C12.R10")
 
+m("C01-r10", "C01", "libwallet/src/internal/selection.rs", "\t\t\tif coin.status == OutputStatus::Locked\n\t\t\t\t|| coin.status == OutputStatus::Spent\n\t\t\t\t|| coin.status == OutputStatus::Reverted\n\t\t\t{", "\t\t\tif coin.status == OutputStatus::Locked || coin.status == OutputStatus::Reverted {", "C01.R10")
+
 
 def for_property(prop):
     return [x for x in M if x["property"] == prop]
